@@ -187,6 +187,9 @@ type source struct {
 	m    *am.Machine
 	tr   *rec.Tracer
 	spec gen.SchemaSpec
+	// grows: the schema gets two more states after the first part of the stream
+	grows bool
+	grown bool
 }
 
 // traced: the transitions the dbg tracer is meant to stream (checks only when
@@ -231,6 +234,26 @@ func newSource(r *rand.Rand, id, addr string) (*source, error) {
 	return &source{m: m, tr: tr, spec: spec}, nil
 }
 
+// grow appends two states to the source's schema mid-stream (SetSchema); they
+// take part in the driving from then on.
+func (s *source) grow() error {
+	if s.grown {
+		return nil
+	}
+	sc := s.m.Schema()
+	names := append(am.S{}, s.m.StateNames()...)
+	for _, n := range []string{"Y1", "Y2"} {
+		sc[n] = am.State{}
+		names = append(names, n)
+	}
+	if err := s.m.SetSchema(sc, names); err != nil {
+		return err
+	}
+	s.grown = true
+	s.spec.Names = append(append([]string{}, s.spec.Names...), "Y1", "Y2")
+	return nil
+}
+
 func (s *source) drive(r *rand.Rand, n int) {
 	names := s.spec.Names
 	kinds := []string{"add", "add", "remove", "set", "toggle", "adderr", "canadd"}
@@ -267,6 +290,8 @@ func (e eng) Run(c core.CaseDesc, tier string) *core.CaseResult {
 			res.Inconclusive = "source: " + err.Error()
 			return res
 		}
+		// the last source of every other stream grows its schema mid-stream
+		s.grows = !p.Busy && i == p.Machines-1 && c.Seed%2 == 0
 		srcs = append(srcs, s)
 	}
 	defer func() {
@@ -306,6 +331,16 @@ func (e eng) Run(c core.CaseDesc, tier string) *core.CaseResult {
 	} else {
 		for round := 0; round < 4; round++ {
 			for _, s := range srcs {
+				if round == 2 && s.grows {
+					if err := s.grow(); err != nil {
+						res.Inconclusive = "SetSchema: " + err.Error()
+						return res
+					}
+					res.Count("sources_growing_their_schema_mid_stream", 1)
+					// the first transitions on the longer schema activate the new states
+					s.m.Add1("Y1", nil)
+					s.m.Add(am.S{"Y2", s.spec.Names[0]}, nil)
+				}
 				s.drive(r, per/4+1)
 			}
 		}
